@@ -305,10 +305,33 @@ class Roles:
         f = self.prog.supplier(self.sched, name)
         if f is None:
             raise AnalysisError("public accessor %s not found" % name)
-        attrs = set()
-        for n in walk_local(f.node):
-            if isinstance(n, ast.Attribute) and isinstance(n.value, ast.Name) and n.value.id == 'self':
-                attrs.add(n.attr)
+        def reads(g, depth=0):
+            out = set()
+            for n in walk_local(g.node):
+                if isinstance(n, ast.Attribute) and isinstance(n.value, ast.Name) and n.value.id == 'self':
+                    m = self.prog.supplier(self.sched, n.attr)
+                    if m is not None:
+                        # a helper of the class the accessor goes through (`self._outcome() is ...`)
+                        if depth < 2 and m is not g:
+                            out |= reads(m, depth + 1)
+                    else:
+                        out.add(n.attr)
+            return out
+        attrs = reads(f)
+        if len(attrs) > 1:
+            # several attributes are consulted: the flag of this accessor is the one that, set alone, makes it true
+            from . import tt
+            hits = []
+            for a in sorted(attrs):
+                obj = tt.Obj('sched', **dict({b: False for b in attrs}, **{a: True, '__class__': self.sched}))
+                try:
+                    if tt.Evaluator(self.prog, self.sched, {}).call_method(name, obj):
+                        hits.append(a)
+                except (tt.Inconclusive, tt.Raised):
+                    hits = []
+                    break
+            if len(hits) == 1:
+                return hits[0]
         if len(attrs) != 1:
             raise AnalysisError("accessor %s reads %d attributes of self" % (name, len(attrs)))
         return attrs.pop()
